@@ -233,3 +233,91 @@ Proof.
   - lia.
   - exact Hf.
 Qed.
+
+Theorem gen_find_omen_level_eq_wf T s fuel : wf_ttab T -> length s < fuel ->
+  py_find_omen_level fuel T s = Ok (levelZ (trainer_level T s)).
+Proof. intros WF. apply gen_find_omen_level_eq. now apply wf_ttab_lvl_wfb. Qed.
+
+(* ------------------------------------------------------------------ *)
+(* OmenScorer.parse = scorer_level                                     *)
+(* ------------------------------------------------------------------ *)
+
+(* what OmenScorer._load_omen guarantees: ngram is the length of the first CP string
+   (>= 1 here: with ngram = 0 the slice bound -1 would count from the end), or it is
+   still -1 and then no CP line was read at all *)
+Definition wf_scorerb (Sc : scorer) : bool :=
+  match sc_ngram Sc with
+  | Some ng => Nat.leb 1 ng
+  | None => is_nil (sc_cp Sc)
+  end.
+
+Theorem gen_scorer_parse_eq Sc s fuel : wf_scorerb Sc = true -> length s < fuel ->
+  py_scorer_parse fuel Sc s = Ok (levelZ (scorer_level Sc s)).
+Proof.
+  intros WF Hf. unfold wf_scorerb in WF. unfold py_scorer_parse, scorer_level, sc_ngramZ. cbv zeta.
+  destruct (sc_ngram Sc) as [ng|] eqn:ENG; cbn [levelZ].
+  - apply Nat.leb_le in WF. destruct ng as [|n1]; [lia|].
+    replace ((zlen s <? Z.of_nat (S n1))%Z || (zlen (sc_ln Sc) - 1 <? zlen s)%Z)
+      with (Nat.ltb (length s) (S n1) || Nat.ltb (length (sc_ln Sc) - 1) (length s)).
+    2:{ unfold zlen. destruct (Nat.ltb_spec (length s) (S n1)); destruct (Nat.ltb_spec (length (sc_ln Sc) - 1) (length s));
+        destruct (Z.ltb_spec (Z.of_nat (length s)) (Z.of_nat (S n1)));
+        destruct (Z.ltb_spec (Z.of_nat (length (sc_ln Sc)) - 1) (Z.of_nat (length s))); try reflexivity; lia. }
+    destruct (Nat.ltb (length s) (S n1) || Nat.ltb (length (sc_ln Sc) - 1) (length s)) eqn:EG; [reflexivity|].
+    apply orb_false_elim in EG. destruct EG as [G1 G2]. apply Nat.ltb_ge in G1, G2.
+    replace (S n1 - 1) with n1 by lia.
+    destruct (nth_error (sc_ln Sc) (length s)) as [ll|] eqn:ELN.
+    2:{ apply nth_error_None in ELN. lia. }
+    rewrite (pyindex_in (sc_ln Sc) (zlen s) ll);
+      [| unfold zlen; lia | unfold zlen; rewrite Nat2Z.id; exact ELN].
+    cbn [bind].
+    rewrite pyslice_prefix by lia. replace (Z.to_nat (Z.of_nat (S n1) - 1)) with n1 by lia.
+    destruct (first_level (firstn n1 s) (sc_ip Sc)) as [li|] eqn:EIP; cbn [dict_get bind catch exn_eqb oadd levelZ]; [|reflexivity].
+    match goal with |- context [mwhile fuel ?c ?b ?i ?k] =>
+      replace i with (firstn n1 s, Z.of_nat li, Z.of_nat (S n1 + 0)) by (repeat f_equal; lia);
+      rewrite (level_loop (fun w => first_level w (sc_cp Sc)) n1 s c b k (fun cl => Ok (Z.of_nat ll + cl)%Z))
+        with (r := s) (j := 0) end.
+    + rewrite <- s_trans_gen. destruct (s_trans Sc n1 s) as [x|]; cbn [catch exn_eqb oadd levelZ]; [|reflexivity].
+      f_equal. lia.
+    + intros ch cl e0. reflexivity.
+    + intros ch cl j Hj. cbn beta iota. unfold zlen. rewrite skipn_length.
+      destruct (Nat.leb_spec (length s - j) n1); cbn [negb]; [apply Z.leb_gt | apply Z.leb_le]; lia.
+    + intros ch cl j Hj. cbn beta iota. rewrite window_slice by exact Hj.
+      destruct (first_level (firstn (S n1) (skipn j s)) (sc_cp Sc)) as [a|]; cbn [dict_get bind]; [|reflexivity].
+      repeat f_equal. lia.
+    + reflexivity.
+    + lia.
+    + exact Hf.
+  - (* ngram = -1: no CP line, the first self.cp[...] raises KeyError whatever the string *)
+    destruct (sc_cp Sc) as [|x r] eqn:ECP; [|discriminate].
+    replace (zlen s <? -1)%Z with false by (symmetry; apply Z.ltb_ge; unfold zlen; lia). cbn [orb].
+    destruct (zlen (sc_ln Sc) - 1 <? zlen s)%Z eqn:EG; [reflexivity|]. apply Z.ltb_ge in EG. unfold zlen in EG.
+    destruct (nth_error (sc_ln Sc) (length s)) as [ll|] eqn:ELN.
+    2:{ apply nth_error_None in ELN. lia. }
+    rewrite (pyindex_in (sc_ln Sc) (zlen s) ll);
+      [| unfold zlen; lia | unfold zlen; rewrite Nat2Z.id; exact ELN].
+    cbn [bind].
+    match goal with |- context [dict_get ?o] => destruct o end; cbn [dict_get bind catch exn_eqb]; [|reflexivity].
+    destruct fuel as [|fuel]; [lia|]. cbn [mwhile].
+    replace (-1 <=? zlen s)%Z with true by (symmetry; apply Z.leb_le; unfold zlen; lia).
+    cbn [first_level dict_get bind catch exn_eqb]. reflexivity.
+Qed.
+
+(* the scorer as OmenScorer._load_omen builds it from the files the trainer writes *)
+Lemma load_s_wf_scorerb T : wf_ttab T -> wf_scorerb (load_s (write T)) = true.
+Proof.
+  intros (H1 & _ & _ & _ & H5). unfold wf_scorerb, load_s, write. cbn [sc_ngram sc_cp f_cp].
+  destruct (write_cp T) as [|[l w] r] eqn:E; [reflexivity|]. cbn [snd].
+  assert (Hin : In (l, w) (write_cp T)) by (rewrite E; now left).
+  unfold write_cp in Hin. apply in_flat_map in Hin. destruct Hin as (e & He & Hin).
+  unfold entry_cp_lines in Hin. apply in_map_iff in Hin. destruct Hin as (cl & Hcl & _).
+  inversion Hcl; subst. rewrite app_length. cbn [length]. apply Nat.leb_le. lia.
+Qed.
+
+(* C11 over the translated functions: the translated scorer on the files the trainer
+   writes returns what the translated find_omen_level returns, for every string *)
+Theorem gen_scorer_eq_trainer T s fuel : wf_ttab T -> length s < fuel ->
+  py_scorer_parse fuel (load_s (write T)) s = py_find_omen_level fuel T s.
+Proof.
+  intros WF Hf. rewrite gen_scorer_parse_eq by (try apply load_s_wf_scorerb; assumption).
+  rewrite gen_find_omen_level_eq_wf by assumption. now rewrite ol_scorer_eq_trainer.
+Qed.
